@@ -266,19 +266,53 @@ impl Queryable for Value {
     where
         T: Into<QueryPath>,
     {
-        convert_js_path(&path.into())
-            .ok()
-            .and_then(|p| self.pointer(p.as_str()))
+        let mut node = self;
+        for step in path_steps(&path.into())? {
+            node = match step {
+                PathStep::Name(name) => node.as_object()?.get(name.as_str())?,
+                PathStep::Index(index) => node.as_array()?.get(index)?,
+            };
+        }
+        Some(node)
     }
 
     fn reference_mut<T>(&mut self, path: T) -> Option<&mut Self>
     where
         T: Into<QueryPath>,
     {
-        convert_js_path(&path.into())
-            .ok()
-            .and_then(|p| self.pointer_mut(p.as_str()))
+        let mut node = self;
+        for step in path_steps(&path.into())? {
+            node = match step {
+                PathStep::Name(name) => node.as_object_mut()?.get_mut(name.as_str())?,
+                PathStep::Index(index) => node.as_array_mut()?.get_mut(index)?,
+            };
+        }
+        Some(node)
     }
+}
+
+/// A step of a path accepted by `reference`: a member name or an array index.
+enum PathStep {
+    Name(String),
+    Index(usize),
+}
+
+/// Splits a path made of name and index selectors only into its steps,
+/// so that a name is only ever looked up in an object and an index in an array.
+fn path_steps(path: &str) -> Option<Vec<PathStep>> {
+    let JpQuery { segments } = parse_json_path(path).ok()?;
+    segments
+        .into_iter()
+        .map(|segment| match segment {
+            Segment::Selector(Selector::Name(name)) => Some(PathStep::Name(
+                name.trim_matches(|c| c == '\'').to_string(),
+            )),
+            Segment::Selector(Selector::Index(index)) => {
+                usize::try_from(index).ok().map(PathStep::Index)
+            }
+            _ => None,
+        })
+        .collect()
 }
 
 fn convert_js_path(path: &str) -> Parsed<String> {
